@@ -86,10 +86,22 @@ def parseSec (j : Json) : Sec2 :=
 
 def methods : List String := ["delete", "get", "head", "options", "patch", "post", "put"]
 
+/-- Go reads an absent field and its zero value alike (`summary: ""`, `deprecated: false`, `tags: []`) -/
+def isZero : Json → Bool
+  | .null => true | .str "" => true | .bool false => true | .arr #[] => true | _ => false
+
+def parseMeta (j : Json) : Rec Json :=
+  opMetaFields.filterMap (fun k => match j.getObjVal? k with
+    | .ok v => if isZero v then none else some (k, v)
+    | _ => none)
+
 def parseOp (m : String) (j : Json) : Op2 Json :=
   { method := m, opId := getStr j "operationId", consumes := strs (getArr j "consumes"),
     produces := strs (getArr j "produces"), params := (getArr j "parameters").map parsePRef,
-    responses := (objKVs (getD j "responses" Json.null)).map (fun (k, v) => (k, parseRRef v)) }
+    responses := (objKVs (getD j "responses" Json.null)).map (fun (k, v) => (k, parseRRef v)),
+    info := parseMeta j,
+    -- `security: []` on an operation (no authentication) is a value, an absent `security` is not
+    security := match j.getObjVal? "security" with | .ok (.arr a) => some (.arr a) | _ => none }
 
 def parsePath (p : String) (j : Json) : Path2 Json :=
   { path := p, params := (getArr j "parameters").map parsePRef,
@@ -102,7 +114,8 @@ def parseDoc (j : Json) : Doc2 Json :=
     responses := (objKVs (getD j "responses" Json.null)).map (fun (k, v) => (k, parseRRef v)),
     defs := (objKVs (getD j "definitions" Json.null)).map (fun (k, v) => (k, parseSch v)),
     secs := (objKVs (getD j "securityDefinitions" Json.null)).map (fun (k, v) => (k, parseSec v)),
-    paths := (objKVs (getD j "paths" Json.null)).map (fun (k, v) => parsePath k v) }
+    paths := (objKVs (getD j "paths" Json.null)).map (fun (k, v) => parsePath k v),
+    security := match j.getObjVal? "security" with | .ok (.arr a) => if a.isEmpty then none else some (.arr a) | _ => none }
 
 /-! printing -/
 
@@ -150,13 +163,15 @@ def apiJson (a : Api Json) : Json :=
   jobj [
     ("ops", jarr (a.ops.map (fun o => jobj [("path", o.path), ("method", o.method), ("opId", o.opId),
         ("inputs", jarr (o.inputs.map inputJson)),
-        ("responses", jarr (o.responses.map (fun (k, r) => jobj [("status", k), ("r", respJson r)])))]))),
+        ("responses", jarr (o.responses.map (fun (k, r) => jobj [("status", k), ("r", respJson r)]))),
+        ("meta", jobj o.info), ("security", o.security.getD Json.null)]))),
     ("pathParams", jarr (a.pathParams.map (fun (p, is) => jobj [("path", p), ("inputs", jarr (is.map inputJson))]))),
     ("shared", jarr (a.shared.map (fun (k, i) => jobj [("name", k), ("input", inputJson i)]))),
     ("sharedResponses", jarr (a.sharedResponses.map (fun (k, r) => jobj [("name", k), ("r", respJson r)]))),
     ("defs", jarr (a.defs.map (fun (k, s) => jobj [("name", k), ("schema", aschJson s)]))),
     ("servers", jarr (a.servers.map serverJson)),
-    ("security", jarr (a.security.map (fun (k, s) => jobj [("name", k), ("s", secJson s)])))]
+    ("security", jarr (a.security.map (fun (k, s) => jobj [("name", k), ("s", secJson s)]))),
+    ("securityReq", a.securityReq.getD Json.null)]
 
 /-! references left in a non-v2 form by the round trip -/
 
@@ -268,11 +283,14 @@ def branches (d : Doc2 Json) (excl : List String) : List String :=
     d.responses.flatMap (fun (_, r) => respBranches "sharedresp" r) ++
     d.paths.flatMap (fun p => p.params.flatMap (paramBranches "pathparam") ++ p.ops.flatMap (fun o =>
       ["op." ++ o.method] ++ (if !o.consumes.isEmpty then ["op.consumes"] else []) ++
+      o.info.map (fun (k, _) => "op.info." ++ k) ++
+      (match o.security with | some (.arr #[]) => ["op.security.empty"] | some _ => ["op.security"] | none => []) ++
       (if !o.produces.isEmpty then ["op.produces"] else []) ++
       o.params.flatMap (paramBranches "param") ++ o.responses.flatMap (fun (_, r) => respBranches "resp" r))) ++
     d.secs.map (fun (_, s) => "sec." ++ s.type ++ (if s.flow != "" then "." ++ s.flow else "")) ++
     (if d.loc.host != "" then ["loc.host"] else []) ++ (if d.loc.basePath != "" then ["loc.basePath"] else []) ++
     d.loc.schemes.map (fun s => "loc.scheme." ++ s) ++
+    (if d.security.isSome then ["doc.security"] else []) ++
     (if !d.consumes.isEmpty then ["doc.consumes"] else []) ++ (if !d.produces.isEmpty then ["doc.produces"] else []) ++
     excl.map (fun e => "excl." ++ e)
   raw.eraseDups
